@@ -185,6 +185,7 @@ def c16(tier):
                         "trace": tr, "res": res, "variants": [], "sid": "%d/dir%d" % (year, k)})
     pairs, meta = [], {}
     nbase = 0
+    near_done = {}
     rng = random.Random(1234 + sd)
     listing_re = re.compile(r"^1040_sb\.[15]_(payer|amount)_\d+$")
     for sc in scs:
@@ -251,6 +252,29 @@ def c16(tier):
             for d in deltas:
                 res2, _a = _resolve(year, request, bump("w-2:0.box_2", d), "h%s" % sc["sid"])
                 add_pair("withheld", int(round(d * 100)), res2, {"input": "w-2:0.box_2", "delta": d})
+        # around the point where the return just balances: withholding a few cents short of the tax, and one dollar more
+        if "w-2:0.box_2" in given and near_done.get(year, 0) < (2 if tier == "quick" else 25):
+            near_done[year] = near_done.get(year, 0) + 1
+            try:
+                tax0, paid0, w0 = float(A_text["1040.24"]), float(A_text["1040.33"]), float(given["w-2:0.box_2"] or 0)
+                wn = round(w0 + (tax0 - paid0) - 0.50, 2)
+            except (KeyError, ValueError):
+                wn = -1.0
+            if wn >= 0:
+                gA = dict(given)
+                gA["w-2:0.box_2"] = "%.2f" % wn
+                gB = dict(given)
+                gB["w-2:0.box_2"] = "%.2f" % (wn + 1.0)
+                rA, _a = _resolve(year, request, gA, "nbA%s" % sc["sid"])
+                rB, _b = _resolve(year, request, gB, "nbB%s" % sc["sid"])
+                if not rA["abort"] and not rB["abort"] and rA.get("solved") and rB.get("solved"):
+                    keep = ("1040.24", "1040.34", "1040.37")
+                    An, Bn = numeric_solution(year, rA["values"])[0], numeric_solution(year, rB["values"])[0]
+                    pid2 = len(pairs) + 1
+                    pairs.append({"pid": pid2, "kind": "withheld", "delta": 100, "A": {k: An[k] for k in keep if k in An},
+                                  "B": {k: Bn[k] for k in keep if k in Bn}, "listing": []})
+                    meta[pid2] = {"kind": "withheld", "year": year, "request": request, "given": gA,
+                                  "change": {"input": "w-2:0.box_2", "delta": 1.0, "nearly_balanced": True}, "sid": sc["sid"]}
         # every other place where federal income tax withheld is entered: box 4 of the 1099 forms, other withholding
         # (other withholding is part of line 25c on every return: if the return did not even ask for it, it counts as 0 before)
         declared = DECLARED_1040.setdefault(year, set(x.base_name() for c in __import__("habutax.forms", fromlist=["x"]).available_forms[year] if c.form_name == "1040" for x in c().inputs()))
@@ -718,6 +742,12 @@ def c02(tier):
                         continue
                     if e.get("cond_nonzero") and S.get(line, 0) == 0:
                         continue
+                if op == "carry_if_any":
+                    # the line must come from the worksheet as soon as one of the named lines is positive
+                    if not any(S.get(a, 0) > 0 for a in args):
+                        continue
+                    op = "carry" if e["src"] in S else "absent"
+                    args = []
                 if op == "addstate":
                     # the amount boxes of every payer copy whose state box names the state
                     args = []
